@@ -50,3 +50,16 @@ Example C12_example_table :
               (204, [(BV 0, RDiv (RI 3) (RMul (RI 4) (RMul RY RY))); (BV 2, RI 1); (BV 1, RNeg (RDiv (RI 3) (RMul (RI 2) RY)))])] in
   table_wf tab = true /\ table_ok tab = true /\ check_case tab 204 = VRj.
 Proof. vm_compute. repeat split. Qed.
+
+(* The numeric model of the closed-form path (Radial/RadialNum.v: base integrals, seeds, the translated case evaluated
+   statement by statement), whose extracted form reproduces the library's closed-form values on every run, computes --
+   over the reals -- exactly the expression C12_case_value is about: the translated case evaluated on the model's base
+   integrals and seeds. *)
+From LV Require Import Base.NumOps Base.RInst Radial.RadialNum Radial.RadialNumProofs.
+Theorem C12_closed_value_is_case : forall root_pi dawson tab nbase i j k (zeta a b A B v s : R),
+  closed_value ROps root_pi dawson tab nbase i j k zeta a b A B = Some (v, s) ->
+  exists c vl g1a g1b h2,
+    find (fun c => Z.eqb (fst c) (key_of i j k)) tab = Some c /\
+    v = ecase (zeta + a + b)%R (a * A)%R (b * B)%R (gbasis ROps vl g1a g1b h2) (snd c).
+Proof. exact closed_value_is_case. Qed.
+Print Assumptions C12_closed_value_is_case.
